@@ -7,6 +7,16 @@ _NOTE = ("Trusted: Coq 8.16.1 kernel + vm_compute; the Go harness (generators, p
          "differential evaluation on generated inputs, not by proof; ")
 
 TEXT = {
+    "C11": {
+        "level": "The standard library's 80 function specifications are translated from the source on every run into a Gallina table (parameter constraints, flags, variadic parameter, result refinement) and put under the call-protocol model of C10. Theorems, for every table entry, callback behaviour and argument list: no Go panic escapes Call; the implementation runs only after the type callback accepted, on arguments meeting the declared constraints. Every function is called on generated argument lists with nulls, unknowns, dynamic values and marks injected; escaping panics, errors that report internal panics, ill-formed results and results not conforming to either type prediction are violations; the protocol's own answers are compared with the model.",
+        "note": _NOTE + "callback bodies are not modelled (partial); nine fix: commits.",
+        "technique": "Coq proof over the call-protocol model instantiated at a source-translated specification table + correspondence by vm_compute + implementation-side totality / type-prediction oracle",
+    },
+    "C12": {
+        "level": "Same table and protocol model as C11. Theorems: the protocol's short-circuit answer for arguments the implementation cannot take is the unknown of the predicted type with the arguments' marks and the function's result refinement, and an unrefined unknown admits every conforming unmarked value. Every function is called on succeeding wholly known arguments and on three typed weakenings of them; a failing weakened call, a result that does not admit the original result (type, nullness, bounds, prefix, lengths, known parts) or an unknown result for wholly known arguments is a violation.",
+        "note": _NOTE + "function-internal unknown handling is decided by the oracle only (partial); one known finding (setproduct), two fix: commits.",
+        "technique": "Coq proof over the call-protocol model instantiated at a source-translated specification table + correspondence by vm_compute + implementation-side weakening / admits oracle",
+    },
     "C15": {
         "level": "cty/json Marshal, Unmarshal and ImpliedType are modelled at the JSON token-tree level. Theorems: unknown, marked and infinite values are rejected; strings, booleans and nulls round-trip; at a dynamic position the encoder writes exactly the documented wrapper and the decoder reduces it to decoding against the recovered type. The integer-text loss is refuted by a kernel-computed witness (known finding). Every generated value x constraint and every grammar document is encoded/decoded by the implementation, compared token tree by token tree with the model, and the round-trip / mirror / implied-type clauses are evaluated on both sides.",
         "note": _NOTE + "encoding/json's lexer is the byte-level mapping on both sides; two known findings (integer text, nested placeholders).",
